@@ -472,6 +472,59 @@ func runC15(seed int64, tier string, sc *Script) map[string]any {
 		sc.Op(strings.Join(got, ","), "pg ocitags tags=%s last=%s", strings.Join(tags, ","), l)
 		evals++
 	}
+	// a listing answered with an error status and a huge body (a proxy's HTML page, a
+	// megabyte of errors): no more than the bound for error bodies is read
+	sc.Case("error-body-limit")
+	sc.NonTrivial()
+	for _, kind := range []string{"tags", "repositories", "referrers"} {
+		for _, bodyKind := range []string{"json", "junk"} {
+			var read int64
+			big := bytes.Repeat([]byte("x"), 1<<20)
+			if bodyKind == "json" {
+				big = append([]byte(`{"errors":[{"code":"UNKNOWN","message":"`), append(bytes.Repeat([]byte("m"), 1<<20), []byte(`"}]}`)...)...)
+			}
+			rt := rtFuncC15(func(req *http.Request) (*http.Response, error) {
+				h := http.Header{}
+				h.Set("Content-Type", "application/json")
+				return &http.Response{StatusCode: 500, Status: "500 Internal Server Error", Header: h, ContentLength: int64(len(big)),
+					Body: countingBody{io.NopCloser(bytes.NewReader(big)), &read}, Request: req}, nil
+			})
+			var err error
+			called := false
+			switch kind {
+			case "tags":
+				repo, _ := remote.NewRepository("registry.invalid/a/b")
+				repo.Client = &http.Client{Transport: rt}
+				err = repo.Tags(ctx, "", func([]string) error { called = true; return nil })
+			case "repositories":
+				r, _ := remote.NewRegistry("registry.invalid")
+				r.Client = &http.Client{Transport: rt}
+				err = r.Repositories(ctx, "", func([]string) error { called = true; return nil })
+			default:
+				repo, _ := remote.NewRepository("registry.invalid/a/b")
+				repo.Client = &http.Client{Transport: rt}
+				repo.SetReferrersCapability(true)
+				sd := content.NewDescriptorFromBytes(ocispec.MediaTypeImageManifest, []byte(`{"schemaVersion":2}`))
+				err = repo.Referrers(ctx, sd, "", func([]ocispec.Descriptor) error { called = true; return nil })
+			}
+			ans := "within"
+			switch {
+			case err == nil:
+				ans = "no-error"
+			case called:
+				ans = "callback-called"
+			case atomic.LoadInt64(&read) > 8192:
+				ans = fmt.Sprintf("over(read=%d)", atomic.LoadInt64(&read))
+			}
+			sc.Op(ans, "pg errbody kind=%s body=%s", kind, bodyKind)
+			evals++
+		}
+	}
 	sc.Extra["evaluations"] = evals
 	return nil
 }
+
+// rtFuncC15 adapts a function to http.RoundTripper.
+type rtFuncC15 func(*http.Request) (*http.Response, error)
+
+func (f rtFuncC15) RoundTrip(r *http.Request) (*http.Response, error) { return f(r) }
